@@ -11,6 +11,9 @@ import (
 	"fmt"
 	"math/big"
 	"os"
+	"runtime/debug"
+	"strings"
+	"syscall"
 	"testing"
 	"time"
 
@@ -280,6 +283,75 @@ func decodeInto(data []byte, dst any) (out decodeOut) {
 	}
 }
 
+// guarded memory: a read-only mapping followed by an inaccessible page. An input is placed so that it ends where the mapping ends: a
+// decoder that writes into its input, or reads past its end, faults - and with SetPanicOnFault the fault is a panic this harness sees.
+var guardMem []byte
+
+const guardSize = 1 << 20
+
+func guarded(data []byte) []byte {
+	page := syscall.Getpagesize()
+	if guardMem == nil {
+		m, err := syscall.Mmap(-1, 0, guardSize+page, syscall.PROT_READ|syscall.PROT_WRITE, syscall.MAP_ANON|syscall.MAP_PRIVATE)
+		if err != nil {
+			panic(err)
+		}
+		if err := syscall.Mprotect(m[guardSize:], syscall.PROT_NONE); err != nil {
+			panic(err)
+		}
+		guardMem = m[:guardSize]
+	}
+	if len(data) > guardSize {
+		return nil
+	}
+	if err := syscall.Mprotect(guardMem, syscall.PROT_READ|syscall.PROT_WRITE); err != nil {
+		panic(err)
+	}
+	at := guardMem[guardSize-len(data) : guardSize : guardSize]
+	copy(at, data)
+	if err := syscall.Mprotect(guardMem, syscall.PROT_READ); err != nil {
+		panic(err)
+	}
+	return at
+}
+
+// (with SetPanicOnFault a memory fault is a runtime error panic: "invalid memory address ..." / "unexpected fault address ...")
+func isFault(detail string) bool {
+	return strings.Contains(detail, "fault") || strings.Contains(detail, "invalid memory address")
+}
+
+func decodeGuarded(data []byte, dst any) (out decodeOut) {
+	in := guarded(data)
+	if in == nil {
+		return decodeOut{Outcome: "skipped"}
+	}
+	done := make(chan decodeOut, 1)
+	go func() {
+		var o decodeOut
+		debug.SetPanicOnFault(true)
+		defer func() {
+			if r := recover(); r != nil {
+				o = decodeOut{Outcome: "panic", Detail: fmt.Sprint(r)}
+			}
+			done <- o
+		}()
+		if err := ttlv.UnmarshalTTLV(in, dst); err != nil {
+			o = decodeOut{Outcome: "error", Detail: err.Error()}
+			return
+		}
+		o = decodeOut{Outcome: "value"}
+		if v, ok := dst.(*ttlv.Value); ok {
+			o.Value = *v
+		}
+	}()
+	select {
+	case o := <-done:
+		return o
+	case <-time.After(5 * time.Second):
+		return decodeOut{Outcome: "timeout"}
+	}
+}
+
 func marshal(v any) (b []byte, pan string) {
 	defer func() {
 		if r := recover(); r != nil {
@@ -430,6 +502,24 @@ func TestReplay(t *testing.T) {
 			if d1.Outcome == "value" || d2.Outcome == "value" {
 				if d1.Outcome != d2.Outcome || canon(projValue(d1.Value)) != canon(projValue(d2.Value)) {
 					bad("c02:second-decode-differs", map[string]any{"first": canon(projValue(d1.Value)), "second": canon(projValue(d2.Value)), "o1": d1.Outcome, "o2": d2.Outcome})
+				}
+			}
+			// the same input in read-only memory that ends at an inaccessible page: same outcome, and no fault - a decoder reads its
+			// input, and only its input
+			{
+				var vg ttlv.Value
+				dg := decodeGuarded(spec, &vg)
+				switch {
+				case dg.Outcome == "panic" && isFault(dg.Detail):
+					bad("c02:memory-fault-on-guarded-input", dg.Detail)
+				case dg.Outcome == "skipped":
+				case dg.Outcome != d1.Outcome || (dg.Outcome == "value" && canon(projValue(dg.Value)) != canon(projValue(d1.Value))):
+					bad("c02:guarded-decode-differs", map[string]any{"plain": d1.Outcome, "guarded": dg.Outcome, "detail": dg.Detail})
+				}
+				for _, target := range []func() any{func() any { return new(kmip.RequestMessage) }, func() any { return new(kmip.ResponseMessage) }} {
+					if d := decodeGuarded(spec, target()); d.Outcome == "panic" && isFault(d.Detail) {
+						bad("c02:typed-memory-fault-on-guarded-input", d.Detail)
+					}
 				}
 			}
 			// Whatever is accepted must come from inside the declared extents. The library is more lenient than the
